@@ -10,6 +10,7 @@ open Go Gen Hand Flow
 /-- the model-level meaning of "authenticated as / identifies as client c" -/
 def Authenticated (now : Int) (p : Provider) (req : AccessTokenRequest) (c : OPClient) : Prop :=
   (req.ClientAssertionType = Const.ClientAssertionTypeJWTAssertion ∧ p.pkjwtSupported = true ∧
+      p.is_JWTAuthorizationGrantExchanger = true ∧
       ∃ j, VerifyJWTAssertion now req.ClientAssertion p.JWTProfileVerifier = .ok j ∧
         p.store.GetClientByClientID j.iss = .ok c ∧ c.auth = Const.AuthMethodPrivateKeyJWT)
   ∨ (req.ClientAssertionType ≠ Const.ClientAssertionTypeJWTAssertion ∧ p.store.GetClientByClientID req.ClientID = .ok c ∧
@@ -55,7 +56,7 @@ theorem match_pkjwt {now : Int} {p : Provider} {t : Token} {c : OPClient}
 
 theorem authorizeCodeClient_ok {now req p a c} (h : AuthorizeCodeClient now req p = .ok (a, c)) :
     p.store.AuthRequestByCode req.Code = .ok a ∧
-    (a.challenge ≠ none → VerifyCodeChallenge now a.challenge req.CodeVerifier = true) ∧
+    (a.challenge ≠ none → req.CodeVerifier ≠ "" ∧ VerifyCodeChallenge now a.challenge req.CodeVerifier = true) ∧
     (c.auth = Const.AuthMethodNone → a.challenge ≠ none) ∧
     Authenticated now p req c := by
   unfold AuthorizeCodeClient AuthRequestByCode AuthorizePrivateJWTKey AuthorizeClientIDSecret at h
@@ -67,16 +68,16 @@ theorem authorizeCodeClient_ok {now req p a c} (h : AuthorizeCodeClient now req 
       rw [← h.2]
       unfold Authenticated
       first
-        | (left; exact ⟨by assumption, by simp_all, match_pkjwt (by assumption)⟩)
+        | (left; exact ⟨by assumption, by simp_all, by simp_all, match_pkjwt (by assumption)⟩)
         | (right; refine ⟨by assumption, by assumption, ?_⟩; first | (left; assumption) | (right; exact ⟨by assumption, by simp_all, match_secret (by assumption)⟩))
     obtain ⟨rfl, rfl⟩ := h
     refine ⟨match_arbc (by assumption), ?_, ?_, hauth⟩
     · intro hne
       first
-        | exact (authorizeCodeChallenge_ok (by assumption)).2
+        | exact authorizeCodeChallenge_ok (by assumption)
         | (exfalso; simp_all [Go.notNil, Nilable.isNil])
     · intro hnone
-      rcases hauth with ⟨_, _, _, _, _, hpk⟩ | _
+      rcases hauth with ⟨_, _, _, _, _, _, hpk⟩ | _
       · rw [hnone] at hpk; exact absurd hpk (by decide)
       · simp_all [Go.notNil, Nilable.isNil, Const.AuthMethodNone, Const.AuthMethodPrivateKeyJWT]
         try (intro hc; simp_all))
@@ -89,7 +90,7 @@ theorem validateGrantType_iff {now c g} : ValidateGrantType now c g = true ↔ g
 theorem validateAccessTokenRequest_ok {now req p a c} (h : ValidateAccessTokenRequest now req p = .ok (a, c)) :
     p.store.AuthRequestByCode req.Code = .ok a ∧ c.id = a.clientID ∧ Const.GrantTypeCode ∈ c.grants ∧
     req.RedirectURI = a.redirectURI ∧
-    (a.challenge ≠ none → VerifyCodeChallenge now a.challenge req.CodeVerifier = true) ∧
+    (a.challenge ≠ none → req.CodeVerifier ≠ "" ∧ VerifyCodeChallenge now a.challenge req.CodeVerifier = true) ∧
     (c.auth = Const.AuthMethodNone → a.challenge ≠ none) ∧ Authenticated now p req c := by
   unfold ValidateAccessTokenRequest at h
   split at h; · simp at h
@@ -110,7 +111,7 @@ theorem validateAccessTokenRequest_ok {now req p a c} (h : ValidateAccessTokenRe
 theorem legacyCodeExchange_ok {now s r i} (h : LegacyCodeExchange now s r = .ok i) :
     ∃ a, i = .code a r.Client r.Data.Code ∧ s.provider.store.AuthRequestByCode r.Data.Code = .ok a ∧
       r.Client.id = a.clientID ∧ r.Data.RedirectURI = a.redirectURI ∧
-      (a.challenge ≠ none → VerifyCodeChallenge now a.challenge r.Data.CodeVerifier = true) ∧
+      (a.challenge ≠ none → r.Data.CodeVerifier ≠ "" ∧ VerifyCodeChallenge now a.challenge r.Data.CodeVerifier = true) ∧
       (r.Client.auth = Const.AuthMethodNone → a.challenge ≠ none) := by
   unfold LegacyCodeExchange AuthRequestByCode issueForCode NewResponse at h
   simp only [Provider.Storage, OPClient.GetID, AuthReq.GetClientID, AuthReq.GetRedirectURI, AuthReq.GetCodeChallenge,
@@ -121,7 +122,7 @@ theorem legacyCodeExchange_ok {now s r i} (h : LegacyCodeExchange now s r = .ok 
     refine ⟨_, rfl, match_arbc (by assumption), by simp_all, by simp_all, ?_, ?_⟩
     · intro hne
       first
-        | exact (authorizeCodeChallenge_ok (by assumption)).2
+        | exact authorizeCodeChallenge_ok (by assumption)
         | (exfalso; simp_all [Go.notNil, Nilable.isNil])
     · intro hnone
       simp_all [Go.notNil, Nilable.isNil]
